@@ -31,6 +31,7 @@ import (
 	"time"
 	"unicode/utf8"
 
+	"github.com/google/go-tdx-guest/abi"
 	pb "github.com/google/go-tdx-guest/proto/tdx"
 	"google.golang.org/protobuf/proto"
 
@@ -824,6 +825,25 @@ func c01(r *hx.Run) {
 			}
 			if rerr == nil {
 				return fmt.Sprintf("verify.RawTdxQuote accepted the genuine quote with bit %d of byte 0x%x (%s) flipped: that bit is covered by link %s [%s]", c.bit, c.pos, fault, expect, w.Spec.Fault)
+			}
+			// and as the message the library's own parser produces from the genuine bytes, in which the caller then REPLACES the
+			// field (a new slice, the way application code edits a message): the verdict is about the content of the message, not
+			// about where its fields live in memory
+			pm, perr := abi.QuoteToProto(c.b.genuine)
+			pq, isV4 := pm.(*pb.QuoteV4)
+			if perr != nil || !isV4 {
+				return ""
+			}
+			nb := t.field.get(pq)
+			nb[t.off] ^= 1 << c.bit
+			t.field.set(pq, nb)
+			ro.Getter = &world.Getter{M: w.Getter.M}
+			res, _ = hx.Guard(func() string { rerr = verify.TdxQuote(pq, ro); return "" })
+			if res == "panic" {
+				return "crash in verify.TdxQuote on a parsed message with one field replaced"
+			}
+			if rerr == nil {
+				return fmt.Sprintf("verify.TdxQuote accepted the message parsed from the genuine quote after its field %s was replaced by a copy with bit %d of byte %d flipped: that bit is covered by link %s [%s]", fault, c.bit, t.off, expect, w.Spec.Fault)
 			}
 			return ""
 		}, []string{"bit-mutant", fault, "base:" + c.b.name}}
